@@ -417,6 +417,83 @@ def run(facts, rep):
                 rep.violation("R-LOCK(d)", key, "`.%s()` through write guard `%s` shrinks the shared cache `%s` in a "
                               "&self function" % (node.get("name"), gname, fld), facts.loc(p, node))
     rep.floor("R-LOCK(c)", "publish / mutation sites through write guards", n_pub, 2)
+    # ---- (try): a non-blocking acquisition whose failure silently skips a publication
+    rep.rule("R-LOCK(try)", "a try_write / try_read / try_lock on a protected cache is not used to guard a publication that is simply "
+             "skipped when the lock is busy (the failure arm must diverge, retry, or acquire blocking), and is never unwrapped")
+    TRY = {d for d in ACQ if "::try_" in d}
+    n_try = 0
+    from facts import Tree as _Tree
+    # the expected count on a healthy tree is zero: a synthetic positive example must be recognised on every run
+    _try = {"k": "MCall", "name": "try_write", "f": {"def": "std::sync::RwLock::<T>::try_write", "name": "try_write"}, "args": [],
+            "recv": {"k": "Field", "name": "cache", "e": {"k": "Path", "res": "local", "lid": 1, "name": "self"}}}
+    _lete = {"k": "LetE", "pat": {"k": "PBind", "lid": 2, "name": "g"}, "init": _try}
+    _syn = {"k": "Block", "stmts": [{"k": "Expr", "e": {"k": "If", "c": _lete, "th": {"k": "Block", "stmts": [
+        {"k": "Semi", "e": {"k": "Assign", "lhs": {"k": "Un", "op": "*", "e": {"k": "Path", "res": "local", "lid": 2, "name": "g"}},
+                            "rhs": {"k": "Lit", "v": "0"}}}]}}}]}
+    selftest = [False]
+
+    class _SelfRep:
+        def __getattr__(self, nm):
+            def f(*a, **kw):
+                if nm == "violation":
+                    selftest[0] = True
+            return f
+    for p in ["<self-test>"] + sorted(facts.hir):
+        body = _syn if p == "<self-test>" else facts.hir[p]
+        calls = [x for x in walk(body) if x.get("k") == "MCall" and (callee(x) or {}).get("def") in TRY]
+        if not calls:
+            continue
+        it = facts.items.get(p, {})
+        if "::tests::" in p or it.get("kind") == "test":
+            continue
+        tree = _Tree(body)
+        real_rep = rep
+        if p == "<self-test>":
+            rep = _SelfRep()
+        else:
+            rep.fn(p)
+        for k_c, c in enumerate(calls):
+            n_try += 0 if p == "<self-test>" else 1
+            fld = strip(c["recv"]).get("name", "?")
+            key = "%s/%s/try#%d" % (p, fld, k_c)
+            up = tree.up(c)
+            if up is not None and up.get("k") == "MCall" and up.get("name") in ("unwrap", "expect"):
+                rep.violation("R-LOCK(try)", key, "`%s.%s().%s()` panics whenever another thread holds the lock: a concurrent caller "
+                              "gets a panic instead of the result of a sequential execution" % (fld, c["name"], up["name"]),
+                              facts.loc(p, c))
+                continue
+            cond_if = None
+            if up is not None and up.get("k") == "LetE":
+                u2 = tree.up(up)
+                if u2 is not None and u2.get("k") == "If" and u2.get("c") is up:
+                    cond_if = u2
+            if cond_if is None:
+                rep.unresolved("R-LOCK(try)", key, "result of %s() consumed by a form the rule does not read" % c["name"], facts.loc(p, c))
+                continue
+            stores = [y for y in walk(cond_if["th"]) if y.get("k") in ("Assign", "AssignOp") or
+                      (y.get("k") == "MCall" and y.get("name") in GROWERS | {"insert", "resize", "copy_from_slice"})]
+            el = cond_if.get("el")
+            in_retry = tree.enclosing(cond_if, ("While", "Loop")) is not None
+            handles = el is not None and (facts.ty(el) == "!" or any(
+                y.get("k") == "MCall" and (callee(y) or {}).get("def") in ACQ and (callee(y) or {}).get("def") not in TRY
+                for y in walk(el)) or any(y.get("k") in ("Ret", "Continue") for y in walk(el)))
+            if not stores:
+                rep.ok("R-LOCK(try)", key, "nothing is published under the non-blocking acquisition", facts.loc(p, c), nontrivial=False)
+            elif handles or in_retry:
+                rep.ok("R-LOCK(try)", key, "the failure arm %s" % ("is inside a retry loop" if in_retry else
+                                                                    "diverges, returns or acquires blocking"), facts.loc(p, c))
+            else:
+                rep.violation("R-LOCK(try)", key, "the store into `%s` is made only if %s() succeeds and nothing happens otherwise: when "
+                              "any other thread holds the lock at that moment (a reader, or a writer filling another entry) the entry "
+                              "is left unfilled and the code that follows uses it as if it had been built" % (fld, c["name"]),
+                              facts.loc(p, c))
+        rep = real_rep
+    if selftest[0]:
+        rep.ok("R-LOCK(try)", "self-test", "the matcher recognises `if let Ok(g) = self.cache.try_write() { *g = .. }` as a skipped "
+               "publication", "rules/r_lock.py", nontrivial=False)
+    else:
+        rep.violation("R-LOCK(try)", "self-test", "the try-acquisition matcher no longer recognises its positive example")
+    rep.floor("R-LOCK(try)", "non-blocking acquisitions", n_try, 0)
     im = interior_mutable_fields(facts)
     rep.extra["interior_mutable_fields"] = ["%s.%s: %s" % x for x in im]
     return ml
